@@ -4,6 +4,7 @@
 package vsync
 
 import (
+	"reflect"
 	"sync"
 
 	"verif/sched"
@@ -280,6 +281,17 @@ func (p *Pool) Put(x any) {
 	}
 	if Debug {
 		sched.Logf("Pool.Put %p items=%d %T", p, len(p.items), x)
+	}
+	// pool discipline: an object that is already in the pool is put back again. Two later Gets
+	// would hand the same object to two holders, so the execution is marked; the explorer reports
+	// it (a cooperative schedule cannot interleave inside code without synchronisation, where the
+	// two holders would collide, so the invariant is checked here instead).
+	if rv := reflect.ValueOf(x); rv.Kind() == reflect.Pointer {
+		for _, it := range p.items {
+			if iv := reflect.ValueOf(it); iv.Kind() == reflect.Pointer && iv.Pointer() == rv.Pointer() {
+				sched.Logf("POOL-DOUBLE-PUT %T is put back while it is already in the pool", x)
+			}
+		}
 	}
 	p.items = append(p.items, x)
 }
